@@ -35,7 +35,7 @@ fn real_res(f: &Fill, b: u8, kind: u16) -> rqsc::ResourceStructure {
         2 => I::ACPIDevice(rqsc::ACPIDeviceResource::new(f.u64(b + 3), f.u32(b + 2))),
         3 => I::PCIDevice(rqsc::PCIDeviceResource::new(f.u32(b + 2))),
         // the type byte is whatever the caller passes (0..=3 coincide with the typed resource kinds' codes: a look-alike)
-        k => I::VendorSpecific(f.u8(b + 4), vendor_bytes(f, b, VENDOR_LENS[(k - 4) as usize])),
+        k => I::VendorSpecific(f.u8(b + 4), crate::util::spare(vendor_bytes(f, b, VENDOR_LENS[(k - 4) as usize]))),
     };
     rqsc::ResourceStructure::new(rt, f.u16(b + 1), id)
 }
